@@ -396,6 +396,9 @@ def listroute_lists(u):
     pa = u["pa"]
     if u["space"] == "long-lists":
         return long_lists()
+    if u["space"] == "dot-patterns":
+        # a pattern that is a lone dot (the empty-line marker of multi-line fields when it stands alone on a continuation line)
+        return [["."], ["x", "."], [".", "x"], ["..", "."], ["./*", "."], [".", "*.", ".?"]]
     if u["space"] == "newline-patterns":
         # patterns with a newline in them (the quantifier names them; a Files field cannot carry one, globs_to_re can)
         ps = [p for p in strings(pa + ["\n"], 1, 3) if "\n" in p]
@@ -932,6 +935,8 @@ def units(tier, seed):
         out.append(dict(base, part="listroutes", space="small-lists", routes=LIST_ROUTES[i:i + 4]))
     for p in short:
         out.append(dict(base, n=2, part="listroutes", space="pairs", first=p, routes=list(LIST_ROUTES_PAIRS)))
+    # ... the lone dot as a pattern, along every list route (one of them puts every pattern on a line of its own)
+    out.append(dict(base, part="listroutes", space="dot-patterns", routes=list(LIST_ROUTES), names=[".", "x", "", "..", "./a", "a."]))
     # ... patterns containing a newline, where the pattern list does not pass through a Files field
     out.append(dict(base, n=2, part="listroutes", space="newline-patterns",
                     routes=["globs_to_re-list", "globs_to_re-tuple", "globs_to_re-generator"]))
